@@ -4,6 +4,8 @@ import BoltonsVerif.C19.Model
 C19 line protocol.  One line = one case.
   sl <cps>                     iter_splitlines(text)      -> `<lines>|<lines of str.splitlines>`
   rl <hex> <bs>                reverse_iter_lines(content, blocksize) -> lines (hex)
+  rt <hex> <bs>                the same on a text-mode file: lines as decoded text (code points); a line the strict
+                               UTF-8 codec rejects ends the output with `!UnicodeDecodeError`
   rf <hex> <pos> <bs>          reverse_iter_lines(content, blocksize, preseek=False) with the file position at pos
   in <cps> <cps> <cps> <key>   indent(text, margin, newline, key) with key = bool (the default) / all (always true)
                                -> text (code points)
@@ -119,6 +121,14 @@ def handle (line : String) : String :=
   | ["rl", c, bs] =>
     match hex? c, bs.toNat? with
     | some c, some bs => if bs = 0 then "bad-op" else showLines showHex (reverseIterLines c bs)
+    | _, _ => "bad-op"
+  | ["rt", c, bs] =>
+    match hex? c, bs.toNat? with
+    | some c, some bs =>
+      if bs = 0 then "bad-op" else
+      let ls := reverseIterLinesText c bs
+      let good := (ls.takeWhile Option.isSome).filterMap id
+      showLines showCps good ++ (if good.length < ls.length then "!UnicodeDecodeError" else "")
     | _, _ => "bad-op"
   | ["rf", c, pos, bs] =>
     match hex? c, pos.toNat?, bs.toNat? with
